@@ -1254,8 +1254,11 @@ def selftest():
     for i, (got, want) in enumerate(fx):
         if got != want:
             raise HarnessError(f"C19 reference model calibration fixture {i}: {got!r} != {want!r}")
-    for fid in known.registered(PROPERTY):
-        pass
+    from .. import core
+
+    missing = core.known_ids(PROPERTY) - set(known.registered(PROPERTY))
+    if missing:
+        raise HarnessError(f"known findings without a predicate in c19.py: {sorted(missing)}")
 
 
 FAMILIES = [
